@@ -30,12 +30,25 @@ E1 (explicit-state exploration on the real objects)
     to_dataframe().to_string(), all at once).  Their own result is not judged; a read that changes vars(object)
     (e.g. fills a cache) yields a NEW canonical state, which is then explored like any other, and the read-out
     after every later operation must still equal the model (a stale cache shows up as attr-differs etc.).
+  * Size families (round 4): boundary sizes are a dimension of their own and the BFS never holds more entries than
+    its key alphabet.  For every n in 1..12 (thorough 1..24) a table of exactly n entries (keyed and un-keyed, built
+    by n appends and by the constructor; collectors: n rows in all five configurations) is followed by every read
+    operation (now including str(), repr() and %-/format-style printing) or none, the full read-out, and then one
+    more operation at EVERY position (delete / overwrite) or at the end (append, refused append, delete of an
+    absent key; collectors: append list/dict, refused dict row, sorts), again with the full read-out.
   * Guard for the de-duplication argument: ALL operation sequences up to a smaller depth are executed unpruned
     (with the single read operation "whole read-out").
 E2 (complete enumeration)
   * DataPlotGrid: every (n, ncols, list|dict, normal|transposed): data cells + missing cells are pairwise distinct,
     cover {0..nrows-1}x{0..ncols-1} exactly once, indices run 0..nrows*ncols-1 in order, payload is the data in
     order, row-major (normal) / column-major (transposed) as documented.
+  * DataPlotGrid, overlapping iterations (round 4): items() is a generator, so several iterations of ONE grid object
+    can be alive at once.  For 2 generators (n 0..8, ncols 1..4, list/dict) and 3 generators (n 2..6, ncols 2..3)
+    with every combination of (missing, transpose) arguments, every schedule of next() calls whose first 4 calls
+    are arbitrary and whose rest is drained generator after generator or round-robin is executed (generators created
+    up front or lazily at their first call); each generator must yield exactly what the same call yields alone on a
+    fresh object (which the plain grid cases judge).  Thorough: n 0..12 x ncols 1..6 with 6 free calls, 3 generators
+    n 0..8 x ncols 1..4 with 5.
   * DataCombination: every list of item lists within the bound, three value variants (unique labels, the same
     numbers in every list, tuples as item lists) plus (round 2) EVERY equality pattern inside the item lists
     (restricted growth strings: [0,1,0] = first and third value equal) rendered three ways: repeated labels,
@@ -64,7 +77,10 @@ RULE = ("E1 case = one transition (canonical implementation state, operation) of
         "is counted in evaluations/transitions only.  E2 case = one (n, ncols, list|dict, normal|transposed) grid "
         "(non-trivial: n >= 2) or one (shape or equality patterns of the item lists, value variant) combination "
         "(non-trivial: >= 2 lists).  Refused operations (fault transitions) and public read-outs (read operations) "
-        "are ordinary transitions of the graph")
+        "are ordinary transitions of the graph; size-family histories (exactly n entries, one read, one operation) "
+        "count as non-trivial only for n beyond the BFS key/depth bound.  Interleaving case = one (grid, argument "
+        "tuple, effective next()-schedule, lazy|upfront creation), schedules de-duplicated; non-trivial = some "
+        "generator is resumed after another one ran and >= 2 generators yield items")
 ASSUMPTIONS = [
     "vars(object) (recursively, incl. value types and numpy dtypes) is all the state the four classes hold, so two "
     "histories ending in the same canonical state have equal futures; guarded by executing every operation "
@@ -102,6 +118,16 @@ RC = dict(quick=dict(depth=5, useq=3), thorough=dict(depth=6, useq=4))
 GRID = dict(quick=dict(nmax=12, cmax=6), thorough=dict(nmax=40, cmax=12))
 COMB = dict(quick=dict(lists=3, length=3, plists=3, plength=3), thorough=dict(lists=4, length=4, plists=3, plength=4))
 PVARIANTS = ("pattern-labels", "pattern-eqtypes", "pattern-unhashable")
+# size families (round 4): tables / collectors of exactly n entries, n beyond anything the BFS reaches
+LIN = dict(
+    quick=dict(keys="abcdefghijkl", nrec=2, urec=3, upos=12, pending=1, nmax=12, rows=12),
+    thorough=dict(keys="abcdefghijklmnopqrstuvwx", nrec=2, urec=3, upos=24, pending=1, nmax=24, rows=24),
+)
+# overlapping iterations of one DataPlotGrid (round 4): (k generators, n range, ncols range, kinds, prefix length)
+MIX = dict(
+    quick=[(2, (0, 8), (1, 4), ("list", "dict"), 4), (3, (2, 6), (2, 3), ("list",), 4)],
+    thorough=[(2, (0, 12), (1, 6), ("list", "dict"), 6), (3, (0, 8), (1, 4), ("list", "dict"), 5)],
+)
 
 
 # ------------------------------------------------------------------------------------------------ helpers
@@ -227,7 +253,7 @@ def _pt_reads(keyed, cfg, fine):
         for i in range(cfg["upos"]):
             ops.append(["read", "pos", i])
     ops += [["read", "len"], ["read", "shape"], ["read", "iter"], ["read", "items"], ["read", "data"],
-            ["read", "all"]]
+            ["read", "str"], ["read", "repr"], ["read", "format"], ["read", "all"]]
     return ops
 
 
@@ -254,7 +280,14 @@ def _pt_read(t, keyed, op, cfg):
         _obs(lambda: [(k, r.data()) for k, r in t.items()])
     elif kind == "data":
         _obs(lambda: t.data())
+    elif kind == "str":
+        _obs(lambda: str(t))
+    elif kind == "repr":
+        _obs(lambda: repr(t))
+    elif kind == "format":
+        _obs(lambda: "%s|{}|{!r}".format(t, t) % (t,))
     else:
+        _obs(lambda: (str(t), repr(t)))
         n = _obs(lambda: len(t))
         _pt_readout(t, n[1] if n[0] == "ok" and isinstance(n[1], int) and 0 <= n[1] < 12 else 0, keyed, cfg)
 
@@ -504,6 +537,8 @@ def _pt_tags(keyed, hist, cfg):
         peak = max(peak, n)
     if peak >= 4:
         tags.append("entries>=4")
+    if peak >= 9:
+        tags.append("entries>=9")
     if len(hist) > 1:
         tags.append("last=" + hist[-1][0])
     return tags
@@ -566,7 +601,7 @@ def _rc_reads(fine):
     """READ operations (public read-outs may have side effects)"""
     if not fine:
         return [["read", "all"]]
-    ops = [["read", "dict"], ["read", "size"], ["read", "frame"]]
+    ops = [["read", "dict"], ["read", "size"], ["read", "frame"], ["read", "str"]]
     for col in COLS:
         ops += [["read", "item", col], ["read", "attr", col]]
     return ops + [["read", "all"]]
@@ -581,6 +616,8 @@ def _rc_read(rc, op):
         _obs(lambda: (rc.size(), len(rc), rc.shape()))
     if kind in ("frame", "all"):
         _obs(lambda: rc.to_dataframe().to_string())
+    if kind in ("str", "all"):
+        _obs(lambda: (str(rc), repr(rc)))
     for col in COLS:
         if kind == "all" or (kind == "item" and op[2] == col):
             _obs(lambda: list(rc[col]))
@@ -984,6 +1021,207 @@ def _grid_case(n, ncols, kind, transpose):
     return None
 
 
+# ================================================================================================ size families
+def _lin_run(part, name, hist, cfg, sh, pre, new_sizes):
+    obj, model, bad = _e1_run(part, name, hist, cfg)
+    sh.evaluations += 1
+    sh.transitions += 1
+    sh.traces += 1
+    sh.max_depth = max(sh.max_depth, len(hist) - 1)
+    if new_sizes:
+        sh.nontrivial += 1           # sizes within the BFS bound repeat BFS transitions: not counted as distinct
+    sh.count(pre + ":size-family")
+    if bad:
+        sh.fail(bad)
+        return False
+    sh.add_to_set("states", _digest(pre, canon(obj)))
+    return True
+
+
+def _lin_pt(keyed, tier, n, sh):
+    """Boundary sizes are a dimension of their own: tables of exactly n entries (built by n appends and by the
+    constructor), then every read operation (or none), then the full read-out, then one follow-up operation at
+    every position (delete / overwrite) or at the end (append, refused append, delete of an absent key)."""
+    cfg = LIN[tier]
+    keys = cfg["keys"]
+    name = "keyed" if keyed else "unkeyed"
+    pre = "pt-" + name
+    if keyed:
+        build = [["append", keys[i], i % 2] for i in range(n)]
+        reads = [["read", "keys"], ["read", "str"], ["read", "repr"], ["read", "format"]]
+        for k in keys[:min(n + 1, len(keys))]:
+            reads += [["read", "attr", k], ["read", "key", k], ["read", "in", k]]
+        follow = []
+        for p in range(n):
+            follow += [["del", keys[p]], ["set", keys[p], 1]]
+        if n < len(keys):
+            follow += [["append", keys[n], 0], ["set!", keys[n]], ["del", keys[n]]]
+    else:
+        build = [["append", i % 2] for i in range(n)]
+        reads = [["read", "str"], ["read", "repr"]]
+        follow = [["del", p] for p in range(n + 1)] + [["append", 2], ["append!"]]
+    reads += [["read", "pos", i] for i in range(n + 1)]
+    reads += [["read", "len"], ["read", "shape"], ["read", "iter"], ["read", "items"], ["read", "data"],
+              ["read", "all"]]
+    new = n > len(PT[tier]["keys"])
+    for root in ([["ctor", n]], [["new"]] + build):
+        for r in [None] + reads:
+            h = root + ([r] if r else [])
+            if not _lin_run("pt", name, h, cfg, sh, pre, new):
+                continue
+            for o in follow:
+                _lin_run("pt", name, h + [o], cfg, sh, pre, new)
+    if n == 9 and keyed:
+        sh.sample(dict(part=pre, size_family=n, history=[["ctor", n], ["read", "str"], ["del", keys[4]]]))
+
+
+def _lin_rc(cname, tier, sh):
+    c = RC_CFG[cname]
+    pre = "rc-" + cname
+    for n in range(1, LIN[tier]["rows"] + 1):
+        if c["cols"] is None:
+            build = [["dict", i % 4, "xy"] for i in range(n)]
+            follow = [["dict", 0, "yx"]]
+        else:
+            build = [["list", i % 4] for i in range(n)]
+            follow = [["list", 0], ["dict", 1, "yx"], ["dict!", 0, "missing"]]
+        follow += [["sort", "x", False], ["sort", "y", True]]
+        new = n > RC[tier]["depth"]
+        root = [["new"]] + build
+        for r in [None] + _rc_reads(True):
+            h = root + ([r] if r else [])
+            if not _lin_run("rc", cname, h, None, sh, pre, new):
+                continue
+            for o in follow:
+                _lin_run("rc", cname, h + [o], None, sh, pre, new)
+
+
+# ================================================================================================ E2: overlapping grid iterations
+ARGS4 = [(False, False), (False, True), (True, False), (True, True)]     # (missing, transpose)
+
+
+def _grid_data(n, kind):
+    if kind == "list":
+        return ["d%d" % i for i in range(n)]
+    return {"k%d" % i: "v%d" % i for i in range(n)}
+
+
+def _tuples_of(k):
+    if k == 0:
+        return [()]
+    return [(a,) + rest for a in ARGS4 for rest in _tuples_of(k - 1)]
+
+
+def _prefixes(k, length):
+    if length == 0:
+        return [()]
+    return [(i,) + rest for i in range(k) for rest in _prefixes(k, length - 1)]
+
+
+def _schedules(lens, length):
+    """effective next()-schedules of len(lens) generators: every prefix of `length` calls (calls on a finished
+    generator are dropped), then the rest drained one generator after the other / round-robin.  A generator with m
+    items takes m+1 calls (the last one ends it)."""
+    k = len(lens)
+    out = set()
+    for pre in _prefixes(k, length):
+        left = [m + 1 for m in lens]
+        eff = []
+        for i in pre:
+            if left[i]:
+                left[i] -= 1
+                eff.append(i)
+        seq = list(eff)
+        for i in range(k):
+            seq += [i] * left[i]
+        out.add(tuple(seq))
+        rr, l2 = list(eff), list(left)
+        while any(l2):
+            for i in range(k):
+                if l2[i]:
+                    l2[i] -= 1
+                    rr.append(i)
+        out.add(tuple(rr))
+    return sorted(out)
+
+
+_ALONE = {}
+
+
+def _grid_alone(n, ncols, kind, arg):
+    key = (n, ncols, kind, arg)
+    if key not in _ALONE:
+        from scinumtools import DataPlotGrid
+        _ALONE[key] = outcome(lambda: [tuple(x) for x in DataPlotGrid(_grid_data(n, kind), ncols).items(
+            missing=arg[0], transpose=arg[1])])
+    return _ALONE[key]
+
+
+def _mix_case(n, ncols, kind, args, sched, lazy):
+    """several items() generators of ONE grid object consumed in the interleaving `sched`; each generator must yield
+    exactly what the same call yields on a fresh object when consumed alone"""
+    from scinumtools import DataPlotGrid
+    args = [tuple(a) for a in args]
+    case = dict(part="grid-interleave", n=n, ncols=ncols, kind=kind, args=[list(a) for a in args],
+                schedule=list(sched), lazy=lazy)
+    tags = ["generators=%d" % len(args), "kind=" + kind]
+    if len(set(a[1] for a in args)) > 1:
+        tags.append("mixed-transpose")
+    if len(set(a[0] for a in args)) > 1:
+        tags.append("mixed-missing")
+    alone = [_grid_alone(n, ncols, kind, a) for a in args]
+    if any(o[0] == "err" for o in alone):
+        return None                                  # the single iteration is judged by the plain grid cases
+
+    def run():
+        g = DataPlotGrid(_grid_data(n, kind), ncols)
+        gens = [None] * len(args)
+        if not lazy:
+            gens = [g.items(missing=a[0], transpose=a[1]) for a in args]
+        outs = [[] for _ in args]
+        for i in sched:
+            if gens[i] is None:
+                gens[i] = g.items(missing=args[i][0], transpose=args[i][1])
+            try:
+                outs[i].append(tuple(next(gens[i])))
+            except StopIteration:
+                pass
+        return outs
+    o = outcome(run)
+    if o[0] == "err":
+        return failure("grid-interleave", case, "iterations run", list(o[1:]), tags=tags, behaviour="raises:" + o[1])
+    for i, (got, exp) in enumerate(zip(o[1], alone)):
+        if got != exp[1]:
+            return failure("grid-interleave", case, dict(generator=i, alone=[list(x) for x in exp[1]]),
+                           dict(generator=i, interleaved=[list(x) for x in got]), tags=tags,
+                           behaviour="interleaved-sequence-differs")
+    return None
+
+
+def _mix_shard(k, n, ncols, kinds, length, sh):
+    for kind in kinds:
+        for args in _tuples_of(k):
+            alone = [_grid_alone(n, ncols, kind, a) for a in args]
+            if any(o[0] == "err" for o in alone):
+                continue
+            lens = [len(o[1]) for o in alone]
+            for sched in _schedules(lens, length):
+                runs = [sched[j] for j in range(len(sched)) if j == 0 or sched[j] != sched[j - 1]]
+                overlap = len(runs) > len(set(runs))     # some generator is resumed after another one ran
+                for lazy in (False, True):
+                    bad = _mix_case(n, ncols, kind, args, sched, lazy)
+                    sh.evaluations += 1
+                    if overlap and sum(1 for m in lens if m) >= 2:
+                        sh.nontrivial += 1
+                    sh.count("grid-interleave:%d-generators" % k)
+                    if bad:
+                        sh.fail(bad)
+                    elif (n, ncols, kind, k, lazy) == (5, 2, "list", 2, False) and args == ((False, False), (False, True)) \
+                            and len(sh.samples) < 1 and overlap:
+                        sh.sample(dict(part="grid-interleave", n=n, ncols=ncols, kind=kind,
+                                       args=[list(a) for a in args], schedule=list(sched)))
+
+
 # ================================================================================================ E2: combination
 def _shapes(nlists, maxlen):
     """all tuples of `nlists` lengths in 0..maxlen, by nested recursion"""
@@ -1108,6 +1346,15 @@ def plan(tier, seed):
     for name in RC_CFG:
         for first in range(_n_first_ops("rc", name, None)):
             shards.append(("seq", "rc", name, tier, first))
+    for n in range(1, LIN[tier]["nmax"] + 1):
+        shards.append(("lin", "pt", "keyed", tier, n))
+        shards.append(("lin", "pt", "unkeyed", tier, n))
+    for name in RC_CFG:
+        shards.append(("lin", "rc", name, tier))
+    for k, (n0, n1), (c0, c1), kinds, length in MIX[tier]:
+        for n in range(n0, n1 + 1):
+            for ncols in range(c0, c1 + 1):
+                shards.append(("gridmix", k, n, ncols, kinds, length))
     for ncols in range(1, GRID[tier]["cmax"] + 1):
         shards.append(("grid", ncols, tier))
     for nl in range(COMB[tier]["lists"] + 1):
@@ -1134,6 +1381,13 @@ def run_shard(desc):
         cfg = PT[tier] if part == "pt" else None
         depth = PT[tier]["useq"] if part == "pt" else RC[tier]["useq"]
         _seq(part, name, cfg, depth, first, sh)
+    elif kind == "lin":
+        if desc[1] == "pt":
+            _lin_pt(desc[2] == "keyed", desc[3], desc[4], sh)
+        else:
+            _lin_rc(desc[2], desc[3], sh)
+    elif kind == "gridmix":
+        _mix_shard(desc[1], desc[2], desc[3], desc[4], desc[5], sh)
     elif kind == "grid":
         _, ncols, tier = desc
         for n in range(GRID[tier]["nmax"] + 1):
@@ -1192,13 +1446,15 @@ def replay(rec):
     part = c["part"]
     if part == "grid":
         return _grid_case(c["n"], c["ncols"], c["kind"], c["transpose"])
+    if part == "grid-interleave":
+        return _mix_case(c["n"], c["ncols"], c["kind"], c["args"], tuple(c["schedule"]), c["lazy"])
     if part == "combination":
         pats = tuple(tuple(p) for p in c["patterns"]) if "patterns" in c else None
         return _comb_case(tuple(c["shape"]), c["variant"], pats)
     hist = [list(op) for op in c["history"]]
     if part.startswith("table-"):
         keys = c["tier_bounds"]["keys"]
-        cfg = PT["quick"] if keys == PT["quick"]["keys"] else PT["thorough"]
+        cfg = [c for c in (PT["quick"], PT["thorough"], LIN["quick"], LIN["thorough"]) if c["keys"] == keys][0]
         return _e1_run("pt", part[len("table-"):], hist, cfg)[2]
     return _e1_run("rc", part[len("rows-"):], hist, None)[2]
 
@@ -1212,7 +1468,8 @@ def finish(total, tier, seed):
         need = ["pt-keyed:del", "pt-keyed:set", "pt-keyed:append", "pt-unkeyed:del", "grid:with-missing-cells",
                 "grid:complete", "combination:empty-product", "combination:non-empty-product",
                 "combination:with-equal-values-in-a-list", "pt-keyed:set!", "pt-keyed:append!", "pt-unkeyed:append!",
-                "pt-keyed:read", "pt-unkeyed:read"]
+                "pt-keyed:read", "pt-unkeyed:read", "pt-keyed:size-family", "pt-unkeyed:size-family",
+                "grid-interleave:2-generators", "grid-interleave:3-generators"]
         need += ["rc-%s:sort" % n for n in RC_CFG] + ["rc-%s:dict" % n for n in RC_CFG]
         need += ["rc-%s:read" % n for n in RC_CFG]
         need += ["rc-%s:dict!" % n for n in RC_CFG if RC_CFG[n]["cols"] is not None]
@@ -1227,7 +1484,8 @@ def finish(total, tier, seed):
     return dict(states=len(states), states_per_object=dict(sorted(per.items())),
                 bounds=dict(table=PT[tier], row_collector=dict(RC[tier], configs=sorted(RC_CFG), rows=ROWS,
                                                               rows_typed=ROWS_T, rows_numeric=ROWS_N),
-                            grid=GRID[tier], combination=COMB[tier]),
+                            grid=GRID[tier], combination=COMB[tier], size_families=LIN[tier],
+                            grid_interleavings=[list(x) for x in MIX[tier]]),
                 caps_hit=[])
 
 MANIFEST = dict(
@@ -1241,7 +1499,10 @@ MANIFEST = dict(
          "is compared with an insertion-ordered dict / list / list of rows (sort: monotone column, multiset of rows "
          "unchanged). All operation sequences up to depth 3 are additionally executed unpruned. Complete enumeration "
          "of DataPlotGrid (n 0..12, ncols 1..6, list/dict, normal/transposed: exact cover, index order, "
-         "row/column-major) and DataCombination (all 85 shapes of 0-3 item lists of length 0-3 in 3 value variants, "
+         "row/column-major; plus 2 and 3 overlapping items() generators of one grid object in every argument "
+         "combination and every schedule with 4 free next() calls, each compared with its solo sequence), size "
+         "families (tables and collectors of exactly 1..12 entries x every read incl. str/repr x one operation at "
+         "every position) and DataCombination (all 85 shapes of 0-3 item lists of length 0-3 in 3 value variants, "
          "and all 820 tuples of equality patterns inside the item lists rendered as repeated labels, ==-equal values "
          "of different type and unhashable equal values, vs a nested-loop product). Thorough: 5 keys (plus a 4-key run with 2 pending "
          "refusals), depth 7/6, unpruned depth 4, n 0..40 x ncols 1..12, 0-4 lists of length 0-4, patterns to length 4.",
